@@ -6,13 +6,14 @@
 
    PROVED for the fragment `ok_block` (Compile/StmtFrag.v): assignment, op-assignment (+ - * / %), print, assert,
    expression statements, if / else-if / else, while, break, continue (through any nesting of ifs), from-loops
-   with a named fresh counter (bounds and step arbitrary call-free expressions), return, over call-free expressions,
+   (named fresh counter, anonymous = hidden register counter, or colliding = an existing variable; bounds and step
+   arbitrary call-free expressions), return, over call-free expressions,
    at ANY nesting depth and program size: C01_module_correct_partial below is the full statement above on that
    fragment (same output lines; Done with an empty call stack, or the related run-time error after the same output
    prefix); and C01_module_fun_correct_partial for modules `definitions; main` whose functions are called in
    expression position, call earlier functions (captured) and themselves (`self`, recursion).
    NOT yet proved: function literals elsewhere than at the start of the module, closures over data variables,
-   calls nested inside larger expressions, first-class function values; anonymous / colliding counters.
+   calls nested inside larger expressions, first-class function values.
    Those are covered by the T1/T2/T3 correspondences on every run.
 
    What else is proved and pinned here:
@@ -120,6 +121,7 @@ Check cblock_correct.
 Check stmt_sim.
 (* non-vacuity of the fragment theorems: concrete nested programs (else-if chain inside a while with block locals; break /
    continue under nested ifs and a nested while; nested from-loops with step, break, continue) *)
+Check C01_nv_stage5a.
 Check C01_nv_stage2. Check C01_nv_stage3. Check C01_nv_stage3_from. Check C01_nv_theorem_applies. Check C01_nv_stage1_fail.
 
 (* non-vacuity: a program with `continue` inside `else` inside a stepped `from` inside a `while` inside a
